@@ -105,6 +105,28 @@ def gen(chk):
     return out
 
 
+def two_cycles(cs, pins_hash):
+    """the same pinning rules over a datastore that already holds trusted documents: cycle 1 trusts state A
+    (timestamp 1, snapshot 1, targets 1); cycle 2 is served a newer timestamp that lists the SAME snapshot version
+    but the snapshot of state B (other digest, listing targets 2). What cycle 2 trusts must be what its own
+    timestamp pins, not what the datastore holds. Returns (scenario, expected versions of cycle 2)."""
+    s = scen.Scen()
+    r = s.root(cs=cs)
+    h = "exact" if pins_hash else None
+    ta = s.targets(version=1, targets=[{"name": "f", "content": "A"}])
+    tb = s.targets(version=2, targets=[{"name": "f", "content": "B"}])
+    sa = s.snapshot(version=1, meta={"targets.json": scen.meta(ta, 1, "exact", h)})
+    sb = s.snapshot(version=1, meta={"targets.json": scen.meta(tb, 2, "exact", h)})
+    tsa = s.timestamp(version=1, meta={"snapshot.json": scen.meta(sa, 1, "exact", h)})
+    tsb = s.timestamp(version=2, meta={"snapshot.json": scen.meta(sb, 1, "exact", h)})
+    fa = scen.top_files(cs, tsa, sa, 1, ta, 1)
+    fb = scen.top_files(cs, tsb, sb, 1, tb, 2)
+    fb.update({k: v for k, v in fa.items() if k not in fb})       # older files stay available
+    s.cycle(r, fa)
+    s.cycle(r, fb)
+    return s, [2, 1, 2]
+
+
 def run(chk):
     chk.rule = ("files from three genuine repository states (versions 1-3 of timestamp, snapshot, targets and a "
                 "delegated role) cross-combined in all 81 ways, x digests/lengths present or absent in each pinning "
@@ -143,6 +165,25 @@ def run(chk):
             want = ["%d.snapshot.json" % i, "%d.targets.json" % j, "%d.d.json" % j]
             if [r for r in reqs if not r.endswith("root.json") and r != "timestamp.json"] != want:
                 chk.violation("consistent snapshots: requested %s, the pinning documents name %s" % (reqs, want), full)
+        clientrun.check_correspondence(chk, s, impl, model)
+    # the same over a datastore that holds trusted documents of an earlier cycle
+    hist = [(cs, ph) + two_cycles(cs, ph) for cs in (False, True) for ph in (True, False)]
+    for (cs, ph, s, want), (impl, model, mcase) in zip(hist, clientrun.run_scenarios(chk, [h[2] for h in hist])):
+        chk.seen(mcase, True)
+        chk.count("two-cycles")
+        desc = {"kind": "two cycles, same snapshot version, different snapshot", "consistent_snapshot": cs,
+                "digests_listed": ph,
+                "implementation": [clientrun.show_cycle(x) for x in impl] if isinstance(impl, list) else impl}
+        if not isinstance(impl, list) or len(impl) != 2 or impl[0][0][0] != 0:
+            chk.broken("two-cycle scenario did not run", dict(desc, scenario=s.case()))
+            continue
+        res2 = impl[1][0]
+        if res2[0] == 0 and res2[2:5] != want:
+            chk.violation("mix-and-match accepted across cycles: the second cycle trusts (timestamp, snapshot, targets) "
+                          "versions %s; its own timestamp pins a snapshot that lists targets version 2" % res2[2:5],
+                          dict(desc, scenario=s.case()))
+        if res2[0] != 0:
+            chk.broken("a consistent newer repository was refused in the second cycle: %s" % res2, dict(desc, scenario=s.case()))
         clientrun.check_correspondence(chk, s, impl, model)
     return chk
 
